@@ -163,6 +163,11 @@ class VectorContainer:
                 f"'{name}' is already defined in the current object"
             )
 
+        if name in self.__dict__['_attributes']:
+            raise DuplicateNameError(
+                f"Attribute with name '{name}' already defined in current object"
+            )
+
         # Cast to a 1D array
         if isinstance(value, Sequence) and not isinstance(value, str):
             value_as_array = np.array(value).flatten()
